@@ -85,5 +85,227 @@ func genC19() {
 	fd = findFunc("pkg/apk/expandapk/expandapk.go", "expandApkWriter", "Next")
 	calls, _, _ = skeleton(fd)
 	g.def("expand_next_calls", "list string", list(calls), "file-system calls of expandApkWriter.Next, "+g.pos(fd))
+
+	// ---- which response's ETag names a downloaded index revision -------------------
+	fd = findFunc("pkg/apk/apk/cache.go", "cacheTransport", "get")
+	g.def("index_name_sources", "list string", list(c19NameSources(fd)),
+		"for every non-error return of the cachePlacer callback in cacheTransport.get: where the etag in the file name comes from, "+g.pos(fd))
+	fd = findFunc("pkg/apk/apk/cache.go", "cacheTransport", "retrieveAndSaveFile")
+	g.def("retrieve_response_flow", "list string", list(c19ResponseFlow(fd)),
+		"retrieveAndSaveFile: R = the result of wrapped.Do(request); what the cachePlacer is called with and what io.Copy reads, "+g.pos(fd))
+
+	// ---- how temporary files / directories are created at every download site ---------
+	var sites, flows []string
+	for _, f := range []struct{ file, recv, name string }{
+		{"pkg/apk/apk/cache.go", "cacheTransport", "retrieveAndSaveFile"},
+		{"pkg/apk/expandapk/expandapk.go", "APKExpanded", "PackageData"},
+		{"pkg/apk/expandapk/expandapk.go", "", "ExpandApk"},
+	} {
+		fd := findFunc(f.file, f.recv, f.name)
+		st, fl := c19TempSites(fd, f.name)
+		sites = append(sites, st...)
+		flows = append(flows, fl...)
+	}
+	g.def("temp_sites", "list string", list(sites), "every call that creates a file or directory in the download functions: function:call(pattern literal)")
+	g.def("temp_flows", "list string", list(flows), "where the path that is advertised / renamed / written below comes from")
 	g.write()
+}
+
+// funcLitArg returns the function literal among the arguments of the first call to callee in fd.
+func funcLitArg(fd *ast.FuncDecl, callee string) *ast.FuncLit {
+	var out *ast.FuncLit
+	if fd == nil || fd.Body == nil {
+		return nil
+	}
+	ast.Inspect(fd.Body, func(n ast.Node) bool {
+		if ce, ok := n.(*ast.CallExpr); ok && out == nil && exprText(ce.Fun) == callee {
+			for _, a := range ce.Args {
+				if fl, ok := a.(*ast.FuncLit); ok {
+					out = fl
+				}
+			}
+		}
+		return out == nil
+	})
+	return out
+}
+
+// definedFrom: the right-hand side call that defines identifier name inside body ("" if none).
+func definedFrom(body ast.Node, name string) *ast.CallExpr {
+	var out *ast.CallExpr
+	ast.Inspect(body, func(n ast.Node) bool {
+		as, ok := n.(*ast.AssignStmt)
+		if !ok || len(as.Lhs) == 0 || len(as.Rhs) != 1 {
+			return true
+		}
+		if id, ok := as.Lhs[0].(*ast.Ident); ok && id.Name == name {
+			if ce, ok := as.Rhs[0].(*ast.CallExpr); ok && out == nil {
+				out = ce
+			}
+		}
+		return true
+	})
+	return out
+}
+
+// c19NameSources classifies every non-error return of the cachePlacer callback.
+func c19NameSources(fd *ast.FuncDecl) []string {
+	fl := funcLitArg(fd, "t.retrieveAndSaveFile")
+	if fl == nil || fl.Type.Params == nil || len(fl.Type.Params.List) != 1 || len(fl.Type.Params.List[0].Names) != 1 {
+		fail("C19: cacheTransport.get no longer passes a one-parameter callback to t.retrieveAndSaveFile")
+		return nil
+	}
+	param := fl.Type.Params.List[0].Names[0].Name
+	var out []string
+	ast.Inspect(fl.Body, func(n ast.Node) bool {
+		if _, ok := n.(*ast.FuncLit); ok {
+			return false
+		}
+		rs, ok := n.(*ast.ReturnStmt)
+		if !ok || len(rs.Results) == 0 {
+			return true
+		}
+		if s, ok := strLit(rs.Results[0]); ok && s == "" {
+			return true // an error return
+		}
+		ce, ok := rs.Results[0].(*ast.CallExpr)
+		if !ok || exprText(ce.Fun) != "cacheFileFromEtag" || len(ce.Args) != 2 {
+			out = append(out, "not-computed-in-the-callback:"+exprText(rs.Results[0]))
+			return true
+		}
+		id, ok := ce.Args[1].(*ast.Ident)
+		if !ok {
+			out = append(out, "etag-expression:"+exprText(ce.Args[1]))
+			return true
+		}
+		def := definedFrom(fl.Body, id.Name)
+		switch {
+		case def == nil:
+			out = append(out, "etag-from-outside-the-callback:"+id.Name)
+		case exprText(def.Fun) == "etagFromResponse" && len(def.Args) == 1 && exprText(def.Args[0]) == param:
+			out = append(out, "etag-of-the-response-handed-to-the-callback")
+		default:
+			out = append(out, "etag-defined-by:"+exprText(def))
+		}
+		return true
+	})
+	return out
+}
+
+// c19ResponseFlow: in retrieveAndSaveFile, R := wrapped.Do(request); the placer is called with R and io.Copy reads R.Body.
+func c19ResponseFlow(fd *ast.FuncDecl) []string {
+	if fd == nil || fd.Body == nil || fd.Type.Params == nil {
+		return nil
+	}
+	placer := ""
+	for _, p := range fd.Type.Params.List {
+		if exprText(p.Type) == "cachePlacer" && len(p.Names) == 1 {
+			placer = p.Names[0].Name
+		}
+	}
+	resp := ""
+	ast.Inspect(fd.Body, func(n ast.Node) bool {
+		as, ok := n.(*ast.AssignStmt)
+		if !ok || len(as.Rhs) != 1 || len(as.Lhs) == 0 {
+			return true
+		}
+		if ce, ok := as.Rhs[0].(*ast.CallExpr); ok && strings.HasSuffix(exprText(ce.Fun), ".wrapped.Do") && resp == "" {
+			if id, ok := as.Lhs[0].(*ast.Ident); ok {
+				resp = id.Name
+			}
+		}
+		return true
+	})
+	if placer == "" || resp == "" {
+		fail("C19: retrieveAndSaveFile: no cachePlacer parameter or no response from wrapped.Do")
+		return nil
+	}
+	norm := func(e ast.Expr) string {
+		t := exprText(e)
+		if t == resp {
+			return "R"
+		}
+		if strings.HasPrefix(t, resp+".") {
+			return "R." + strings.TrimPrefix(t, resp+".")
+		}
+		return t
+	}
+	var out []string
+	ast.Inspect(fd.Body, func(n ast.Node) bool {
+		ce, ok := n.(*ast.CallExpr)
+		if !ok {
+			return true
+		}
+		switch f := exprText(ce.Fun); {
+		case f == placer && len(ce.Args) == 1:
+			out = append(out, "placer("+norm(ce.Args[0])+")")
+		case f == "io.Copy" && len(ce.Args) == 2:
+			out = append(out, "io.Copy(_, "+norm(ce.Args[1])+")")
+		}
+		return true
+	})
+	return out
+}
+
+// c19TempSites: the creating calls of one download function and where the published path comes from.
+func c19TempSites(fd *ast.FuncDecl, fname string) (sites, flows []string) {
+	if fd == nil || fd.Body == nil {
+		return
+	}
+	creators := map[string]bool{"os.CreateTemp": true, "os.MkdirTemp": true, "os.Create": true, "os.OpenFile": true, "os.WriteFile": true, "os.Mkdir": true}
+	tempVar := map[string]string{} // identifier -> creating call that defines it
+	ast.Inspect(fd.Body, func(n ast.Node) bool {
+		switch x := n.(type) {
+		case *ast.AssignStmt:
+			if len(x.Rhs) == 1 && len(x.Lhs) > 0 {
+				if ce, ok := x.Rhs[0].(*ast.CallExpr); ok && creators[exprText(ce.Fun)] {
+					if id, ok := x.Lhs[0].(*ast.Ident); ok {
+						tempVar[id.Name] = exprText(ce.Fun)
+					}
+				}
+			}
+		case *ast.CallExpr:
+			if creators[exprText(x.Fun)] {
+				pat := "_"
+				if len(x.Args) == 2 {
+					if s, ok := strLit(x.Args[1]); ok {
+						pat = s
+					}
+				}
+				sites = append(sites, fname+":"+exprText(x.Fun)+"("+pat+")")
+			}
+		}
+		return true
+	})
+	// origin of a path expression: X.Name() or X where X was defined by a creating call
+	origin := func(e ast.Expr) string {
+		t := exprText(e)
+		if ce, ok := e.(*ast.CallExpr); ok && len(ce.Args) == 0 {
+			if se, ok := ce.Fun.(*ast.SelectorExpr); ok && se.Sel.Name == "Name" {
+				if c, ok := tempVar[exprText(se.X)]; ok {
+					return "result-of-" + c
+				}
+			}
+		}
+		if c, ok := tempVar[t]; ok {
+			return "result-of-" + c
+		}
+		return "other:" + t
+	}
+	ast.Inspect(fd.Body, func(n ast.Node) bool {
+		ce, ok := n.(*ast.CallExpr)
+		if !ok {
+			return true
+		}
+		switch f := exprText(ce.Fun); {
+		case f == "paths.AdvertiseCachedFile" && len(ce.Args) == 2:
+			flows = append(flows, fname+":advertise-src="+origin(ce.Args[0]))
+		case f == "os.Rename" && len(ce.Args) == 2:
+			flows = append(flows, fname+":rename-src="+origin(ce.Args[0]))
+		case f == "newExpandApkWriter" && len(ce.Args) >= 1:
+			flows = append(flows, fname+":stream-files-dir="+origin(ce.Args[0]))
+		}
+		return true
+	})
+	return
 }
